@@ -189,7 +189,7 @@ theorem leaf_not_ret (f : Nat) (st : Stmt) (hst : FragStmt V st) (σ σ' : S)
     split at h
     · rename_i o he
       simp only [Prod.mk.injEq] at h
-      exact (evalMatrixRanges_error hst.1 hst.2 f cf _ _ he).2.2 h.1
+      exact (evalMatrixRanges_error f cf _ _ he).2.2 h.1
     · exact device_ne_ret h
   | units m => exfalso; simp only [execStmt] at h; exact device_ne_ret h
   | wait => exfalso; simp only [execStmt] at h; exact device_ne_ret h
@@ -289,7 +289,7 @@ theorem operand_ret_step (f : Nat) (ihBR : BlockRet V img K f) : OperandRet V im
     split at h
     · rename_i o he
       simp only [Prod.mk.injEq] at h
-      exact (evalRange_error hop f _ _ _ _ he).2.2 h.1
+      exact (evalRange_error f _ _ _ _ he).2.2 h.1
     · exact device_ne_ret h
   | matrixInline n rows cols cf =>
     exfalso
@@ -298,7 +298,7 @@ theorem operand_ret_step (f : Nat) (ihBR : BlockRet V img K f) : OperandRet V im
     · split at h
       · rename_i o he
         simp only [Prod.mk.injEq] at h
-        exact (evalMatrixRanges_error hop.1 hop.2 f cf _ _ he).2.2 h.1
+        exact (evalMatrixRanges_error f cf _ _ he).2.2 h.1
       · rw [andThen_eq] at h
         exact andThen_device_ne_ret h
     · exact device_ne_ret h1
@@ -556,7 +556,8 @@ theorem loop_count_ret (f : Nat) (ihRv : RvToGoal V img K f) (ihC : CountRet V i
         (passes_replicate _).symm⟩
     · simp at h
 
-theorem loop_range_ret (f : Nat) (ihC : CountRet V img K f) (v : String) (a b : Rv) (ha : RvOK a) (hbd : RvOK b)
+theorem loop_range_ret (f : Nat) (ihRv : RvToGoal V img K f) (ihC : CountRet V img K f) (v : String) (a b : Rv)
+    (ha : RvC V a) (hbd : RvC V b)
     (body : Block) (hb : FragBlock V body) (σ σ' : S) (s : State) (pc exit : Nat)
     (stk : Stk) (sim : Sim K stk σ s) (hpc : s.pc = (pc : Int))
     (hc : CodeAt img pc (resolve (genLoop (.range v a b) (genBlock body)) pc exit))
@@ -566,12 +567,12 @@ theorem loop_range_ret (f : Nat) (ihC : CountRet V img K f) (v : String) (a b : 
   split at h
   · rename_i o' he
     simp only [Prod.mk.injEq] at h
-    exact ((evalRv_error ha f σ _ he).2.2 h.1).elim
+    exact ((evalRvC_error he).2.2 h.1).elim
   · rename_i x σ1 hea
     split at h
     · rename_i o' he
       simp only [Prod.mk.injEq] at h
-      exact ((evalRv_error hbd f _ _ he).2.2 h.1).elim
+      exact ((evalRvC_error he).2.2 h.1).elim
     · rename_i y σ2 heb
       split at h
       · rename_i p q hp hq
@@ -580,10 +581,8 @@ theorem loop_range_ret (f : Nat) (ihC : CountRet V img K f) (v : String) (a b : 
           (σ2.assign v x) σ' s pc exit stk sim hpc hc ?_ h
         intro hcpre t ht
         simp only [indexVarRange, if_true] at hcpre ⊢
-        obtain ⟨rfl, hex1⟩ := exec_toLoopVar a ha .first [] _ ht.2 ht.1 hcpre.left.left.left hea
-        refine hex1.trans fun t1 ht1 => ?_
-        obtain ⟨rfl, hex2⟩ := exec_toLoopVar b hbd .last _ _ ht1.2 ht1.1 hcpre.left.left.right heb
-        refine hex2.trans fun t2 ht2 => ?_
+        refine (rv_toLoopVar ihRv a ha .first [] _ ht.2 ht.1 hcpre.left.left.left hea).trans fun t1 ht1 => ?_
+        refine (rv_toLoopVar ihRv b hbd .last _ _ ht1.2 ht1.1 hcpre.left.left.right heb).trans fun t2 ht2 => ?_
         have hfirst : getVar (putVar (putVar [] .first x) .last y) .first = x := by
           rw [getVar_putVar_other _ _ _ _ (by decide), getVar_putVar]
         have hlast : getVar (putVar (putVar [] .first x) .last y) .last = y := getVar_putVar _ _ _
@@ -603,8 +602,9 @@ theorem loop_range_ret (f : Nat) (ihC : CountRet V img K f) (v : String) (a b : 
           exact hinc
       · simp at h
 
-theorem loop_with_ret (f : Nat) (ihC : CountRet V img K f) (n : Rv) (hn : RvOK n) (wc : WithClause)
-    (hw : WithOK wc) (body : Block) (hb : FragBlock V body) (σ σ' : S) (s : State)
+theorem loop_with_ret (f : Nat) (ihRvs : RvToGoals V img K f) (ihC : CountRet V img K f) (n : Rv) (hn : RvC V n)
+    (wc : WithClause)
+    (hw : WithOK V wc) (body : Block) (hb : FragBlock V body) (σ σ' : S) (s : State)
     (pc exit : Nat) (stk : Stk) (sim : Sim K stk σ s) (hpc : s.pc = (pc : Int))
     (hc : CodeAt img pc (resolve (assembleLoop (genRv n (.to counter) ++ withCode wc) counterTest []
       (genBlock body) (loopPost (some (withVarOf wc)))) pc exit))
@@ -623,7 +623,7 @@ theorem loop_with_ret (f : Nat) (ihC : CountRet V img K f) (n : Rv) (hn : RvOK n
   split at h
   · rename_i o' he
     simp only [Prod.mk.injEq] at h
-    exact ((evalRv_error hn f σ _ he).2.2 h.1).elim
+    exact ((evalRvC_error he).2.2 h.1).elim
   · rename_i cnt σ1 he
     split at h
     · simp at h
@@ -632,27 +632,28 @@ theorem loop_with_ret (f : Nat) (ihC : CountRet V img K f) (n : Rv) (hn : RvOK n
       split at h
       · rename_i o' hew
         simp only [Prod.mk.injEq] at h
-        exact ((evalWith_error hw f cnt σ1 _ hew).2.2 h.1).elim
+        exact ((evalWith_error f cnt σ1 _ hew).2.2 h.1).elim
       · simp at h
       · rename_i i σ2 hew
         rw [passCount_eq, ← bindsOf_none] at h
         refine loop_counted_ret f ihC _ none (some (withVarOf wc, i)) body hb _ σ σ2 σ' s pc exit stk sim hpc hc
           ?_ h
         intro hcpre t ht
-        obtain ⟨rfl, hcnt⟩ := exec_toCounter n hn [] _ ht.2 ht.1 hcpre.left he
-        refine hcnt.trans fun t1 ht1 => ?_
-        refine (exec_with wc hw cnt q fl ht1.2 ht1.1 hcpre.right (getVar_putVar [] .counter cnt) hnum hew).mono
+        refine (rv_toLoopVar (ihRvs f (Nat.le_refl f)) n hn .counter [] _ ht.2 ht.1 hcpre.left he).trans
+          fun t1 ht1 => ?_
+        refine (exec_with ihRvs wc hw cnt q fl ht1.2 ht1.1 hcpre.right (getVar_putVar [] .counter cnt) hnum hew).mono
           fun t2 ⟨vars', ht2, hc2, hi2⟩ => ?_
         refine ⟨vars', cnt, q, fl, ⟨?_, ht2.2⟩, hc2, hnum, ?_, (passes_replicate _).symm⟩
-        · rw [ht2.1]; simp only [List.length_append]; congr 1; omega
+        · rw [ht2.1]; simp only [List.length_append, counter]; omega
         · intro p' hp'
           simp only [Option.mem_def, Option.some.injEq] at hp'
           subst hp'
           exact hi2
 
 /-- `return` out of a loop over names -/
-theorem loop_names_ret (g : Nat) (ihC : CountRet V img K g) (disc : List Instr) (lv : String)
-    (w : Option WithClause) (hw : OWithOK w) (body : Block) (hb : FragBlock V body) (names : List String)
+theorem loop_names_ret (g : Nat) (ihRvs : RvToGoals V img K g) (ihC : CountRet V img K g) (disc : List Instr)
+    (lv : String)
+    (w : Option WithClause) (hw : OWithOK V w) (body : Block) (hb : FragBlock V body) (names : List String)
     (σ σd σ' : S) (s : State) (pc exit : Nat) (stk : Stk)
     (sim : Sim K stk σ s) (hpc : s.pc = (pc : Int))
     (hc : CodeAt img pc (resolve (assembleLoop ([.moveq (.int 0) counter] ++ disc ++ withClause w) counterTest
@@ -680,12 +681,12 @@ theorem loop_names_ret (g : Nat) (ihC : CountRet V img K g) (disc : List Instr) 
     refine ⟨vars', _, _, false, ⟨?_, ht'.2⟩, hcnt, hnum, by simp, passes_nat _⟩
     rw [ht'.1]; simp [withClause]; omega
   | some wc =>
-    have hwc : WithOK wc := hw
+    have hwc : WithOK V wc := hw
     simp only at h
     split at h
     · rename_i o' hew
       simp only [Prod.mk.injEq] at h
-      exact ((evalWith_error hwc g _ σd _ hew).2.2 h.1).elim
+      exact ((evalWith_error g _ σd _ hew).2.2 h.1).elim
     · simp at h
     · rename_i i σ2 hew
       have hpost : loopPost (withVar (some wc)) = postOf (some (withVarOf wc, i)) := by
@@ -699,7 +700,7 @@ theorem loop_names_ret (g : Nat) (ihC : CountRet V img K g) (disc : List Instr) 
         have := hcpre.right
         rw [withClause_some] at this
         exact this.cast (by simp; omega)
-      refine (exec_with wc hwc (.int names.length) _ false ht1.2 ht1.1 hcw hcnt1 hnum hew).mono
+      refine (exec_with ihRvs wc hwc (.int names.length) _ false ht1.2 ht1.1 hcw hcnt1 hnum hew).mono
         fun t2 ⟨vars2, ht2, hc2, hi2⟩ => ?_
       refine ⟨vars2, _, _, false, ⟨?_, ht2.2⟩, hc2, hnum, ?_, passes_nat _⟩
       · rw [ht2.1]; simp [withClause_some]; omega
@@ -708,9 +709,10 @@ theorem loop_names_ret (g : Nat) (ihC : CountRet V img K g) (disc : List Instr) 
         subst hp'
         exact hi2
 
-theorem loop_ret_step (f : Nat) (ihRv : RvToGoal V img K f) (ihW : WhileRet V img K f) (ihC : CountRet V img K f)
+theorem loop_ret_step (f : Nat) (ihRvs : RvToGoals V img K f) (ihW : WhileRet V img K f) (ihC : CountRet V img K f)
     (ihC1 : ∀ g, g + 1 = f → CountRet V img K g) : LoopRet V img K (f + 1) := by
   intro hd body hhd hb σ σ' s pc exit stk sim hpc hc h
+  have ihRv := ihRvs f (Nat.le_refl f)
   cases hd with
   | forever =>
     exact loop_while_ret f ihW none trivial body hb σ σ' s pc exit stk sim hpc hc
@@ -719,19 +721,19 @@ theorem loop_ret_step (f : Nat) (ihRv : RvToGoal V img K f) (ihW : WhileRet V im
     exact loop_while_ret f ihW (some c) hhd body hb σ σ' s pc exit stk sim hpc hc
       (by simpa only [execLoop] using h)
   | count n => exact loop_count_ret f ihRv ihC n hhd body hb σ σ' s pc exit stk sim hpc hc h
-  | range v a b => exact loop_range_ret f ihC v a b hhd.1 hhd.2 body hb σ σ' s pc exit stk sim hpc hc h
+  | range v a b => exact loop_range_ret f ihRv ihC v a b hhd.1 hhd.2 body hb σ σ' s pc exit stk sim hpc hc h
   | interp n v a b =>
-    exact loop_with_ret f ihC n hhd.1 (.fromTo v a b) hhd.2 body hb σ σ' s pc exit stk sim hpc hc
+    exact loop_with_ret f ihRvs ihC n hhd.1 (.fromTo v a b) hhd.2 body hb σ σ' s pc exit stk sim hpc hc
       (by simp only [execLoop] at h; exact h)
   | cycle n v start =>
-    exact loop_with_ret f ihC n hhd.1 (.cycle v start) hhd.2 body hb σ σ' s pc exit stk sim hpc hc
+    exact loop_with_ret f ihRvs ihC n hhd.1 (.cycle v start) hhd.2 body hb σ σ' s pc exit stk sim hpc hc
       (by simp only [execLoop] at h; exact h)
   | all lv w =>
     simp only [execLoop] at h
     cases f with
     | zero => simp [iterLoop] at h
     | succ g =>
-      refine loop_names_ret g (ihC1 g rfl) iterLights lv w hhd body hb _ σ _ σ' s pc exit stk sim hpc hc ?_ h
+      refine loop_names_ret g (fun g' hg' => ihRvs g' (Nat.le_succ_of_le hg')) (ihC1 g rfl) iterLights lv w hhd body hb _ σ _ σ' s pc exit stk sim hpc hc ?_ h
       intro vars t p ht hp hcd hcnt
       refine (exec_iterSets (o := .light) (Or.inl rfl) (.loopVar .current) (Or.inl rfl) 0 ht hp hcd hcnt).mono
         fun t' ⟨vars', ht', hc'⟩ => ⟨vars', by simpa [namesOf, iterLights, iterSets, iterSkeleton_length] using ht',
@@ -741,7 +743,7 @@ theorem loop_ret_step (f : Nat) (ihRv : RvToGoal V img K f) (ihW : WhileRet V im
     cases f with
     | zero => simp [iterLoop] at h
     | succ g =>
-      refine loop_names_ret g (ihC1 g rfl) (iterSets .group) lv w hhd body hb _ σ _ σ' s pc exit stk sim hpc hc
+      refine loop_names_ret g (fun g' hg' => ihRvs g' (Nat.le_succ_of_le hg')) (ihC1 g rfl) (iterSets .group) lv w hhd body hb _ σ _ σ' s pc exit stk sim hpc hc
         ?_ h
       intro vars t p ht hp hcd hcnt
       refine (exec_iterSets (o := .group) (Or.inr (Or.inl rfl)) (.reg .result) (Or.inr rfl) 0 ht hp hcd hcnt).mono
@@ -752,7 +754,7 @@ theorem loop_ret_step (f : Nat) (ihRv : RvToGoal V img K f) (ihW : WhileRet V im
     cases f with
     | zero => simp [iterLoop] at h
     | succ g =>
-      refine loop_names_ret g (ihC1 g rfl) (iterSets .location) lv w hhd body hb _ σ _ σ' s pc exit stk sim hpc hc
+      refine loop_names_ret g (fun g' hg' => ihRvs g' (Nat.le_succ_of_le hg')) (ihC1 g rfl) (iterSets .location) lv w hhd body hb _ σ _ σ' s pc exit stk sim hpc hc
         ?_ h
       intro vars t p ht hp hcd hcnt
       refine (exec_iterSets (o := .location) (Or.inr (Or.inr rfl)) (.reg .result) (Or.inr rfl) 0 ht hp hcd
@@ -764,15 +766,15 @@ theorem loop_ret_step (f : Nat) (ihRv : RvToGoal V img K f) (ihW : WhileRet V im
     split at h
     · rename_i o' he
       simp only [Prod.mk.injEq] at h
-      exact ((iterNames_error items hhd.1 f σ _ he).2.2 h.1).elim
+      exact ((iterNames_error items f σ _ he).2.2 h.1).elim
     · rename_i names σ1 he
       cases f with
       | zero => simp [iterNames] at he
       | succ g =>
-        refine loop_names_ret g (ihC1 g rfl) (iterItems items) lv w hhd.2 body hb names σ σ1 σ' s pc exit stk sim
+        refine loop_names_ret g (fun g' hg' => ihRvs g' (Nat.le_succ_of_le hg')) (ihC1 g rfl) (iterItems items) lv w hhd.2 body hb names σ σ1 σ' s pc exit stk sim
           hpc hc ?_ h
         intro vars t p ht hp hcd hcnt
-        refine (exec_iterItems items hhd.1 (g + 1) σ σ1 names vars [] t p 0 he ht hp hcd hcnt).mono
+        refine (exec_iterItems items hhd.1 (g + 1) ihRvs σ σ1 names vars [] t p 0 he ht hp hcd hcnt).mono
           fun t' ⟨vars', ht', hc'⟩ => ⟨vars', by simpa using ht', by simpa using hc'⟩
 
 
